@@ -204,11 +204,15 @@ func (r *Run) SampleEvery(i, every int, v func() any) {
 	}
 }
 
-func (r *Run) Rule(s string)            { r.rule = s }
-func (r *Run) Assume(s ...string)       { r.assumptions = append(r.assumptions, s...) }
-func (r *Run) SetExhaustive(b bool)     { r.exhaustive = b }
-func (r *Run) Extra(k string, v any)    { r.mu.Lock(); r.extra[k] = v; r.mu.Unlock() }
-func (r *Run) Inconclusive(why string)  { r.mu.Lock(); r.inconcl = append(r.inconcl, why); r.mu.Unlock() }
+func (r *Run) Rule(s string)         { r.rule = s }
+func (r *Run) Assume(s ...string)    { r.assumptions = append(r.assumptions, s...) }
+func (r *Run) SetExhaustive(b bool)  { r.exhaustive = b }
+func (r *Run) Extra(k string, v any) { r.mu.Lock(); r.extra[k] = v; r.mu.Unlock() }
+func (r *Run) Inconclusive(why string) {
+	r.mu.Lock()
+	r.inconcl = append(r.inconcl, why)
+	r.mu.Unlock()
+}
 
 var keyClean = regexp.MustCompile(`[^A-Za-z0-9_.:+-]`)
 
@@ -406,4 +410,48 @@ func FullHex(b []byte) string { return hex.EncodeToString(b) }
 func NewRand(seed uint64, stream string) *rand.Rand {
 	h := sha256.Sum256([]byte(stream))
 	return rand.New(rand.NewPCG(seed, binary.LittleEndian.Uint64(h[:8])))
+}
+
+// HeldRing keeps the last n byte slices returned by an encoder together with a private copy,
+// and reports those whose bytes changed after later calls (an output aliasing a reused or
+// pooled internal buffer). Goroutine-safe.
+type HeldRing struct {
+	mu   sync.Mutex
+	n    int
+	live [][]byte
+	copy [][]byte
+	tag  []string
+}
+
+func NewHeldRing(n int) *HeldRing { return &HeldRing{n: n} }
+
+// Hold records out (not copied) and returns the tags of previously held outputs that changed.
+func (h *HeldRing) Hold(out []byte, tag string) (changed []string) {
+	h.mu.Lock()
+	defer h.mu.Unlock()
+	changed = h.check()
+	if len(h.live) >= h.n {
+		h.live, h.copy, h.tag = h.live[1:], h.copy[1:], h.tag[1:]
+	}
+	h.live = append(h.live, out)
+	h.copy = append(h.copy, append([]byte{}, out...))
+	h.tag = append(h.tag, tag)
+	return
+}
+
+// Check returns the tags of held outputs whose bytes no longer equal their copy.
+func (h *HeldRing) Check() []string {
+	h.mu.Lock()
+	defer h.mu.Unlock()
+	return h.check()
+}
+
+func (h *HeldRing) check() (changed []string) {
+	for i := range h.live {
+		if string(h.live[i]) != string(h.copy[i]) {
+			changed = append(changed, h.tag[i])
+			h.copy[i] = append([]byte{}, h.live[i]...)
+		}
+	}
+	return
 }
